@@ -20,6 +20,8 @@ var (
 	strPool = []string{"refinery-eu", "my dataset", "s3cr3t!", "p@ss:word", "it's", `say "hi"`, "café", "prod1", "Team7",
 		"abc_def", "eth0", "192.168.1.1", "x", "a b", "#frag", "- dash", "key: value", "[abc]", "Refinery Logs 2",
 		"abcdef0123456789abcdef0123456789", "abcdefghij0123456789", "never", "always", "monitor", "customPrefix",
+		// blanks at the edges (a plain YAML scalar would lose them), inner and only blanks, tabs
+		"s3cret ", "hunter2  ", " lead", "  both  ", "two  inner", " ", "   ", "tab\tin", "trail\t", "\tlead", "Refinery Logs Prod  ",
 		// read by YAML as something other than a string when written without quotes
 		"12345", "007", "true", "null", "0x1F", "1e3", "False", "12345678901234567890123456789012", "12345678901234567890", "1_000"}
 	hostPool = []string{"0.0.0.0:9090", "localhost:6379", "127.0.0.1:8082", "redis.local:6380", ":8080"}
@@ -28,6 +30,7 @@ var (
 	intPool  = []int64{0, 1, 5, 50, 75, 90, 100, 150, 999, 1000, 5000, 20000, 100000, 1000000, 2000000}
 	memPool  = []int64{0, 1, 1000, 1024, 1234567, 1000000, 1048576, 1500000000, 2147483648, 4294967296, 17179869184}
 	itemPool = []string{"trace.span_id", "error", "http.status", "abc123", "abcdef0123456789abcdef0123456789", "my key",
+		"my key ", " x", "a  b", "  ", "end\t",
 		"*", "12345", "true", "null", "a: b", "#x", "12345678901234567890123456789012"}
 )
 
@@ -111,13 +114,7 @@ func candidate(r *kit.Rng, rw row, spicy bool) (val, bool) {
 		}
 		if !spicy {
 			zero := (v.Tag == "i" && v.N == 0) || (v.Tag == "s" && rw.FType == "duration" && (v.S == "0s"))
-			bad := false
-			for _, s := range append([]string{v.S}, v.L...) {
-				if (v.Tag == "s" || v.Tag == "l") && s != "" && yamlTag(s) != "str" {
-					bad = true
-				}
-			}
-			if (zero && v.String() != rw.Arg.String()) || bad {
+			if zero && v.String() != rw.Arg.String() {
 				continue
 			}
 		}
@@ -193,9 +190,10 @@ func genConfig(r *kit.Rng, maxLen int) kit.Case {
 			ops = append(ops, fmt.Sprintf("set %s %s", k, v.String()))
 		}
 	}
-	if spicy && r.Chance(8) {
+	if r.Chance(10) {
 		ops = append(ops, "set AdditionalAttributes "+[]string{"t:ClusterName=MyCluster,environment=production",
-			"t:rollout.id=12345", "t:env=a%3A%20b,cluster=true"}[r.Intn(3)])
+			"t:rollout.id=12345", "t:env=a%3A%20b,cluster=true",
+			"t:env=prod%20,%20lead=%20v,two%20%20inner=x%20%20y", "t:blank=%20%20,tab=a%09"}[r.Intn(5)])
 	}
 	for i := len(ops) - 1; i > 0; i-- { // order of the settings in the file must not matter
 		j := r.Intn(i + 1)
@@ -388,7 +386,7 @@ func genRules(r *kit.Rng, maxLen int) kit.Case {
 			for i := 0; i < nr; i++ {
 				if r.Chance(80) {
 					ops = append(ops, fmt.Sprintf("rrule %s %d %s %s", ds, i, keyCase(r, style, "name"),
-						val{Tag: "s", S: []string{"drop healthchecks", "keep 500s", "slow", "rule: x", "42"}[r.Intn(5)]}.String()))
+						val{Tag: "s", S: []string{"drop healthchecks", "keep 500s", "slow", "rule: x", "42", "trail ", " lead"}[r.Intn(7)]}.String()))
 					gets = append(gets, fmt.Sprintf("rgetrule %s %d Name", ds, i))
 				}
 				down := r.Chance(22)
@@ -426,7 +424,7 @@ func genRules(r *kit.Rng, maxLen int) kit.Case {
 					case 0:
 						opv, v = "=", val{Tag: "i", N: []int64{200, 500, 0, 1}[r.Intn(4)]}
 					case 1:
-						opv, v = []string{"=", "!=", "starts-with", "contains", "does-not-contain"}[r.Intn(5)], val{Tag: "s", S: []string{"/health-check", "users", "200", "true", "a: b"}[r.Intn(5)]}
+						opv, v = []string{"=", "!=", "starts-with", "contains", "does-not-contain"}[r.Intn(5)], val{Tag: "s", S: []string{"/health-check", "users", "200", "true", "a: b", " users ", "  "}[r.Intn(7)]}
 					case 2:
 						opv, v = []string{">", ">=", "<", "<="}[r.Intn(4)], val{Tag: "f", S: []string{"1000.789", "0.5", "2.25"}[r.Intn(3)]}
 					case 3:
